@@ -81,6 +81,102 @@ Section Run.
     - destruct (p_start st); [|discriminate]. inversion E; reflexivity.
   Qed.
 
+
+  (* ---------------------------------------------------------------- *)
+  (* the loop body on each of the commands Path.d writes               *)
+
+  Definition raise (ab : bool) (cur z : pt) : pt := if ab then z else cadd N z cur.   (* z += current_pos *)
+
+  (* the first control point S computes, the control point T computes *)
+  Definition smooth_c1 (st : pstate) : result pt :=
+    bind (last_in none_ok cC cS (p_cmd st)) (fun isin =>
+      if isin then bind (last_control2 (p_segs st))
+                        (fun pc2 => Ok (csub N (cadd N (p_cur st) (p_cur st)) pc2))
+      else Ok (p_cur st)).
+  Definition t_ctrl (st : pstate) : result pt :=
+    bind (last_in none_ok cQ cT (p_cmd st)) (fun isin =>
+      if isin then bind (last_control (p_segs st))
+                        (fun pc => Ok (csub N (cadd N (p_cur st) (p_cur st)) pc))
+      else Ok (p_cur st)).
+
+  Lemma exec_move ab p st :
+    exec_cmd (MoveTo ab [p]) st
+    = let cur' := if ab then p else cadd N (p_cur st) p in
+      Ok (mkP (Some cL) ab cur' (Some cur') (p_segs st)).
+  Proof. destruct p; reflexivity. Qed.
+  Lemma exec_line ab p st :
+    exec_cmd (LineTo ab [p]) st
+    = let e := raise ab (p_cur st) p in
+      Ok (mkP (Some cL) ab e (p_start st) (Line (p_cur st) e :: p_segs st)).
+  Proof. destruct p; reflexivity. Qed.
+  Lemma exec_curve ab c1 c2 e st :
+    exec_cmd (CurveTo ab [(c1, c2, e)]) st
+    = let cur := p_cur st in
+      Ok (mkP (Some cC) ab (raise ab cur e) (p_start st)
+              (Cubic cur (raise ab cur c1) (raise ab cur c2) (raise ab cur e) :: p_segs st)).
+  Proof. destruct c1, c2, e; reflexivity. Qed.
+  Lemma exec_smooth ab c2 e st :
+    exec_cmd (SmoothTo ab [(c2, e)]) st
+    = match smooth_c1 st with
+      | Ok c1 => let cur := p_cur st in
+                 Ok (mkP (Some cS) ab (raise ab cur e) (p_start st)
+                         (Cubic cur c1 (raise ab cur c2) (raise ab cur e) :: p_segs st))
+      | Err err => Err err
+      end.
+  Proof.
+    destruct c2, e. unfold exec_cmd, smooth_c1. cbn [flatten_cmd flat_map fpair fpt app fst snd].
+    unfold Parse.exec.
+    destruct (last_in none_ok cC cS (p_cmd st)) as [b|]; cbn [bind]; [|reflexivity].
+    destruct b; cbn [bind]; [|reflexivity].
+    destruct (last_control2 (p_segs st)); reflexivity.
+  Qed.
+  Lemma exec_quad ab c e st :
+    exec_cmd (QuadTo ab [(c, e)]) st
+    = let cur := p_cur st in
+      Ok (mkP (Some cQ) ab (raise ab cur e) (p_start st)
+              (Quad cur (raise ab cur c) (raise ab cur e) :: p_segs st)).
+  Proof. destruct c, e; reflexivity. Qed.
+  Lemma exec_t ab e st :
+    exec_cmd (TTo ab [e]) st
+    = match t_ctrl st with
+      | Ok c => let cur := p_cur st in
+                Ok (mkP (Some cT) ab (raise ab cur e) (p_start st)
+                        (Quad cur c (raise ab cur e) :: p_segs st))
+      | Err err => Err err
+      end.
+  Proof.
+    destruct e. unfold exec_cmd, t_ctrl. cbn [flatten_cmd flat_map fpt app fst snd].
+    unfold Parse.exec.
+    destruct (last_in none_ok cQ cT (p_cmd st)) as [b|]; cbn [bind]; [|reflexivity].
+    destruct b; cbn [bind]; [|reflexivity].
+    destruct (last_control (p_segs st)); reflexivity.
+  Qed.
+  Lemma exec_arc ab r rot la sw e st :
+    exec_cmd (ArcTo ab [mkArcArgs r rot la sw e]) st
+    = let cur := p_cur st in
+      match arc_or_line N coinc_ok cur r rot (if la then one N else zero N)
+                        (if sw then one N else zero N) (raise ab cur e) with
+      | Ok new => Ok (mkP (Some cA) ab (raise ab cur e) (p_start st) (new ++ p_segs st))
+      | Err err => Err err
+      end.
+  Proof.
+    destruct r, e. unfold exec_cmd.
+    cbn [flatten_cmd flat_map farc fpt app fst snd aa_r aa_rot aa_large aa_sweep aa_end].
+    unfold Parse.exec, fflag, raise. cbn [popc popf pop tofloat bind fst snd re im]. unfold mkc.
+    cbn [fst snd].
+    match goal with |- context [arc_or_line ?a ?b ?c ?d ?e ?f ?g ?h] =>
+      destruct (arc_or_line a b c d e f g h) end; reflexivity.
+  Qed.
+  Lemma exec_close up st :
+    exec_cmd (Close up) st
+    = match p_start st with
+      | None => Err StartNone
+      | Some sp => Ok (mkP None up sp (Some sp)
+                           (if ceqb N (p_cur st) sp then p_segs st
+                            else Line (p_cur st) sp :: p_segs st))
+      end.
+  Proof. unfold exec_cmd. cbn. destruct (p_start st); reflexivity. Qed.
+
   Lemma flatten_cmd_shape c : exists l ab args, flatten_cmd N c = TCmd l ab :: args.
   Proof. destruct c; cbn; eauto. Qed.
 
@@ -98,7 +194,7 @@ Section Run.
       apply reaches_step.
       + rewrite F. discriminate.
       + apply step_single; assumption.
-      + rewrite F. rewrite <- app_comm_cons. cbn [length]. rewrite (app_length args). lia.
+      + rewrite F. rewrite <- app_comm_cons. cbn [length]. rewrite (app_length args). unfold flatten. lia.
   Qed.
 
   Theorem impl_parse_run_cmds prog pos0 st' :
